@@ -618,6 +618,16 @@ class C06(C05):
                         b.append([10, mode, 8000, 8000, 80000, 8000, 8000, ln, 100] + list(body))
         for t in (b'mul 1, 2\n', b'mov.i 1, 2\n', b'mov *1, 2\n', b'mov 1, }2\n', b'nop 1\n', b'seq 1, 2\n', b'mov 1, #2\n', b'dat $1, #2\n', b'jmp #1\n', b'slt 1, #2\n', b'add #1, #2\n'):
             b.append([10, 0, 8000, 8000, 80000, 8000, 8000, 100, 100] + list(t))
+        # modes (and modifiers) that reach an instruction through an EQU name instead of being written at the operand:
+        # under either dialect the result, if accepted, must still obey the rule set
+        for mode in (0, 2):
+            for ch in b'#$@<>*{}':
+                for use in (b'mov p, 1\n', b'mov 1, p\n', b'dat p, p\n', b'jmp p\n', b'add #1, p\n', b'mov.i p, 1\n'):
+                    for val in (b'2', b'x', b' 0'):
+                        t = b'x equ 3\np equ ' + bytes([ch]) + val + b'\n' + use
+                        b.append([10, mode, 8000, 8000, 80000, 8000, 8000, 100, 100] + list(t))
+            for t in (b'm equ mov.x\nm 1, 2\n', b'o equ .i\nmov o 1, 2\n', b'two equ 1, }2\nmov two\n', b'ops equ >1, *2\nadd ops\n'):
+                b.append([10, mode, 8000, 8000, 80000, 8000, 8000, 100, 100] + list(t))
         return lines + [' '.join(str(x) for x in l) for l in b]
 
     def verdict_name(self, r):
